@@ -2,6 +2,8 @@
 // Use of this source code is governed by an MIT
 // licence that can be found in the LICENCE file.
 
+use crate::lexer::InterpSlot;
+
 #[derive(Clone, Debug)]
 pub enum Prog {
     Body{stmts: Block},
@@ -59,7 +61,7 @@ pub enum RawExpr {
     // `interpolation_slots` is `None` iff the string isn't interpolated,
     // otherwise it contains start/end indices of substrings to be evaluated
     // during interpolation.
-    Str{s: String, interpolation_slots: Option<Vec<(usize, usize)>>},
+    Str{s: String, interpolation_slots: Option<Vec<InterpSlot>>},
 
     Var{name: String},
 
